@@ -196,6 +196,56 @@ theorem runStepN_keeps_valid (fuel : Nat) (ins : List (List Candle)) (e : Engine
     rw [List.range_succ, List.foldl_append]
     exact stepAt_keeps_valid u fuel _ _ n ih
 
+theorem fixedFirst_valid (cs : List Candle) (i : Nat) (hv : ∀ k ∈ cs, k.Valid) : ∀ k ∈ fixedFirst cs i, k.Valid := by
+  unfold fixedFirst
+  split
+  · cases h : fixedRow cs i with
+    | none => simpa using hv
+    | some c =>
+      intro k hk
+      simp only at hk
+      rcases List.mem_or_eq_of_mem_set hk with h1 | h1
+      · exact hv k h1
+      · rw [h1]; exact fixedRow_valid cs i c hv h
+  · exact hv
+
+theorem symSkip_keeps_valid (fuel i step : Nat) (acc : Engine M × List (List Candle)) (sym : Nat) (hv : AllValid acc.2) :
+    AllValid (symSkip u fuel i step acc sym).2 := by
+  unfold symSkip
+  split
+  · exact hv
+  · exact set_valid _ hv sym _ (fixedFirst_valid _ i (getD_valid _ hv sym))
+
+theorem fold_symSkip_keeps_valid (fuel i step : Nat) (syms : List Nat) (acc : Engine M × List (List Candle)) (hv : AllValid acc.2) :
+    AllValid (syms.foldl (symSkip u fuel i step) acc).2 := by
+  induction syms generalizing acc with
+  | nil => exact hv
+  | cons s ss ih => exact ih _ (symSkip_keeps_valid u fuel i step acc s hv)
+
+theorem skipAt_keeps_valid (fuel : Nat) (ins : List (List Candle)) (e : Engine M) (i step : Nat) (hv : AllValid ins) :
+    AllValid (skipAt u fuel ins e i step).2 := by
+  unfold skipAt
+  split
+  · exact hv
+  · exact fold_symSkip_keeps_valid u fuel i step _ _ hv
+
+/-- … and over any number of chunks of the fast simulator: the chunk handed to `simulateChunk` is a slice of valid rows
+    (its first row jump-fixed), and each minute the chunk loop works on — `fixJump` of a valid row — is valid -/
+theorem runSkipN_keeps_valid (fuel : Nat) (ins : List (List Candle)) (e : Engine M) (step k : Nat) (hv : AllValid ins) :
+    AllValid (runSkipN u fuel ins e step k).2 := by
+  unfold runSkipN
+  induction k with
+  | zero => simpa using hv
+  | succ k ih =>
+    rw [List.range_succ, List.foldl_append]
+    exact skipAt_keeps_valid u fuel _ _ _ _ ih
+
+theorem chunk_minute_valid (prev : Option Candle) (c : Candle) (hc : c.Valid) :
+    (match prev with | some p => fixJump p c | none => c).Valid := by
+  cases prev with
+  | none => exact hc
+  | some p => exact (C07.fix_jump_bounds p c hc).1
+
 end C02
 
 namespace C02
